@@ -294,7 +294,7 @@ struct extents_constructor {
       using next_t =
           extents_constructor<K - 1, Extents, NewExtents..., new_static_extent>;
       return next_t::next_extent(
-          ext, slices_and_extents..., index_t(divide<index_t>(ExtentType(), StrideType())));
+          ext, slices_and_extents..., index_t(new_static_extent));
     }
   }
 };
